@@ -20,5 +20,6 @@ Conforms(in, obs) ==
 Describe(in) == [ok |-> RefParse(in.toks).ok,
                  run |-> IF RefParse(in.toks).ok THEN RefRun(in.toks, FilesOf(in)) ELSE <<>>]
 
+Beyond(in) == FALSE
 INSTANCE TraceCheck
 =============================================================================
